@@ -69,6 +69,7 @@ type Enc struct {
 	inlineStack []*ssa.Function
 	autoDepth int // number of automatically (best-effort) inlined callees on the stack
 	privateCells []privateCell
+	interiorStored map[string]bool // pointee types for which an interior pointer was stored as an opaque stand-in
 	extCells  []T // references of locals/captured variables introduced lazily (pairwise distinct)
 	writeRefs map[string]map[string]bool // during discovery: heap key -> object reference terms written
 	discNames map[string]bool            // names introduced during the current discovery pass
